@@ -248,10 +248,12 @@ def e3(ctx):
             roots = value_roots(du, r, v, conv=("decode",))
             # (name, etag): component 1 of the returned pair is what _import_one returned
             comp = [o for o in roots]
-            if isinstance(v, ast.Tuple) and len(v.elts) == 2:
-                comp = value_roots(du, r, v.elts[1], conv=("decode",))
-            elif roots and all(o.kind == "expr" and isinstance(o.leaf, ast.Tuple) and len(o.leaf.elts) == 2 and not o.path for o in roots):
-                comp = [x for o in roots for x in value_roots(du, o.node, o.leaf.elts[1], conv=("decode",))]
+            from .common import as_tuple
+            pair = as_tuple(ctx, imp, r, v)          # (name, etag) as a tuple display or as a record of the program
+            if pair and len(pair) == 2:
+                comp = value_roots(du, r, pair[1], conv=("decode",))
+            elif roots and all(o.kind == "expr" and not o.path and len(as_tuple(ctx, imp, o.node, o.leaf) or ()) == 2 for o in roots):
+                comp = [x for o in roots for x in value_roots(du, o.node, as_tuple(ctx, imp, o.node, o.leaf)[1], conv=("decode",))]
             ok = bool(comp) and all(o.kind == "expr" and not o.path and _is_call_to(o.leaf, {"_import_one"}) for o in comp)
         obs.append(ctx.ob(ok, imp.qualname, where(imp, r), "import_one returns the etag _import_one computed", "etag <- self._import_one(...)",
                           "GitStore.import_one returns `%s`, not the id _import_one computed for the stored bytes" % src(v)))
